@@ -50,6 +50,7 @@ type Config struct {
 	Crashed []int  // replica ids that are silent from the start
 	Leaders []int  // leader of view v is Leaders[(v-1) mod len]; empty = the repository's round robin
 	Batch   int    // commands per block
+	NoFetch    bool // block requests get no answer (the peers that hold the block are slow or unreachable just then)
 	AsyncVotes bool // votes are verified concurrently (the production default) instead of synchronously
 	ActorReuseCmds bool // every other block of the actor re-proposes the commands of an earlier block
 	ActorBridges bool // a partition separates honest replicas only: the Byzantine actor reaches, and is reached by, both sides
@@ -547,6 +548,10 @@ func (s *sender) Sub([]hotstuff.ID) (core.Sender, error) { return s, nil }
 func (s *sender) RequestBlock(_ context.Context, h hotstuff.Hash) (*hotstuff.Block, bool) {
 	cl := s.st.Cl
 	cl.Fetches++
+	if cl.Cfg.NoFetch {
+		cl.Faults["fetch-unanswered"]++
+		return nil, false
+	}
 	for _, o := range cl.Stacks {
 		if o.Idx == s.st.Idx || !cl.reachable(s.st.Idx, o.Idx) {
 			continue
